@@ -281,7 +281,10 @@ def run(ctx):
         '(edsig/spsig/p2sig/sig/BLsig), a 96-byte BLS signature against a 64-byte one lexicographically (prefix first); '
         '(3) address kinds: implicit < originated < smart rollup; tx-rollup (txr1) addresses are not values of type `address` in pytezos',
         'bridge text↔structure (key_hash, address, chain_id compared as base58 text by the code, as kind tag + payload by the model): '
-        'not proved in Lean; validated here on every case (payloads generated, encoded with the harness\'s own base58check table)',
+        'Lean theorem C03.text_bridge proves it over the Base58 model of C09 under the hypothesis that both texts have the same number of '
+        'characters (C09 table rows) and that the checksum is a function of prefix‖payload; that the real base58 library agrees with that '
+        'model is C09; additionally validated here on every case (payloads generated, encoded with the harness\'s own base58check table). '
+        'For key and signature the code compares `base58_decode(text)`, i.e. the payload the harness generated (decode∘encode = id is C09)',
         'domain: entrypoint suffixes are 1..31 characters of [A-Za-z0-9_] (an empty `%` suffix, `%default` spelled out, and several `%` '
         'are outside the model: the first is normalised by from_value, the others are not valid address literals); strings are ASCII; '
         'secret keys accepted by KeyType.from_value (`edsk…`) are not key values',
